@@ -75,6 +75,11 @@ pub fn plan(tier: &str, seed: u64) -> Vec<Batch> {
             unis.push(u);
         }
     }
+    // a kernel between 5.8 and 6.7: statx reports the old mount id only (and no openat2 backend
+    // to fall back on for the procfs resolver's own checks)
+    let mut old_ids = UniCfg::e();
+    old_ids.statx_no_unique = true;
+    unis.push(old_ids);
     for (ui, uni) in unis.into_iter().enumerate() {
         let nb = if ui < 2 { n } else { (n / 2).max(1) };
         for i in 0..nb {
@@ -910,7 +915,7 @@ pub fn finalise(tier: &str, seed: u64, res: coord::CheckResult) -> i32 {
         tier,
         seed,
         "exploration",
-        "one evaluation = one procfs lookup (open, open_follow, readlink; Rust handle or the C API's global handle) executed twice: on a clean /proc and with 1-3 mounts placed by the simulated attacker (fd-based move_mount exactly on the dentry, so symlinks and magic-links can be over-mounted) on files, directories, in-procfs symlinks, magic-links, /proc/self, /proc/thread-self and /proc itself - tmpfs, bind of a foreign file/directory, bind of another procfs file/directory, bind of a magic-link target, bind of a symlink as such (a foreign link that leads into another process's directory, procfs's own links); handle kinds: fsopen (subset and unmasked), open_tree non-recursive and recursive (taken before or after the mounts), plain open, global; universes K/E x new mount API {available, fsopen refused, all refused}; oracles: a successful result never lives on a mount the attacker placed nor is the mounted object; a handle backed by a private procfs gives exactly the result it gives without the mounts; any other handle gives that result or an error; race-capi: the same for the C API's global handle when it lives on the host's /proc (new mount API refused), with the flag sets C callers use for 'the link itself' (O_PATH|O_NOFOLLOW); race phase: for non-following lookups one mount is placed at every window of the lookup, on private handles (must be unaffected) and on handles that live on the host's /proc (plain open, recursive clone: may fail, a success is never the over-mounted object); race-remove: the mount is in place when the lookup starts and is removed at every window of it (same matrix, plus the C API's global handle) - a private handle gives its baseline result, any other handle the baseline result or an error, never the object that had been mounted (compared by inode through the mount, since the id of a removed mount can be reused); non-trivial = at least one attacker mount took effect; distinct = hash of the case",
+        "one evaluation = one procfs lookup (open, open_follow, readlink; Rust handle or the C API's global handle) executed twice: on a clean /proc and with 1-3 mounts placed by the simulated attacker (fd-based move_mount exactly on the dentry, so symlinks and magic-links can be over-mounted) on files, directories, in-procfs symlinks, magic-links, /proc/self, /proc/thread-self and /proc itself - tmpfs, bind of a foreign file/directory, bind of another procfs file/directory, bind of a magic-link target, bind of a symlink as such (a foreign link that leads into another process's directory, procfs's own links); handle kinds: fsopen (subset and unmasked), open_tree non-recursive and recursive (taken before or after the mounts), plain open, global; universes K/E x new mount API {available, fsopen refused, all refused}, plus E with a statx that predates STATX_MNT_ID_UNIQUE (Linux 5.8 - 6.7); oracles: a successful result never lives on a mount the attacker placed nor is the mounted object; a handle backed by a private procfs gives exactly the result it gives without the mounts; any other handle gives that result or an error; race-capi: the same for the C API's global handle when it lives on the host's /proc (new mount API refused), with the flag sets C callers use for 'the link itself' (O_PATH|O_NOFOLLOW); race phase: for non-following lookups one mount is placed at every window of the lookup, on private handles (must be unaffected) and on handles that live on the host's /proc (plain open, recursive clone: may fail, a success is never the over-mounted object); race-remove: the mount is in place when the lookup starts and is removed at every window of it (same matrix, plus the C API's global handle) - a private handle gives its baseline result, any other handle the baseline result or an error, never the object that had been mounted (compared by inode through the mount, since the id of a removed mount can be reused); non-trivial = at least one attacker mount took effect; distinct = hash of the case",
         res,
         extra,
         vec!["requires statx mount ids (Linux 5.8+), as the statement does".into(), "the final-component race of open_follow on non-private handles is outside the statement and not asserted".into()],
